@@ -16,7 +16,7 @@ import pickle
 import numpy as np
 
 from .. import recorded
-from ..harness import InjectedFault, Probe, pop_to_np, rm_tmp, tmpfile, to_np
+from ..harness import InjectedFault, InjectedInterrupt, Probe, pop_to_np, rm_tmp, tmpfile, to_np
 from ..targets import Target
 
 ID = "C11"
@@ -159,12 +159,13 @@ def run_case(case):
         counters["crash_points"] += 1
         path = tmpfile("ck.h5")
         try:
-            probe = Probe(Target.from_desc(cfg["target"]), fault_like_at=k)
+            # every third crash is an interruption that is not an Exception subclass (Ctrl-C like)
+            probe = Probe(Target.from_desc(cfg["target"]), fault_like_at=k, fault_exc=InjectedInterrupt if k % 3 == 2 else InjectedFault)
             F = recorded.record(cfg, probe=probe, with_callback=False, ckpt_path=path)
             if F.exc is None:
                 viol.append({"mech": "C11/fault-not-reached", "detail": f"{where}: call index {k} of {n_calls} never executed in the faulted run (run not deterministic up to the crash)"})
                 continue
-            if not isinstance(F.exc, InjectedFault):
+            if not isinstance(F.exc, (InjectedFault, InjectedInterrupt)):
                 raise F.exc
             b = load_file_payload(path)
             if b is None:
